@@ -37,6 +37,7 @@ ASSUMPTIONS = [
 
 PRELUDE = r"""
 Definition c14_tol : Qc := q 1 100000.
+Definition sq_score (ks : list qclass) (x t : list Qc) : Qc := dot (map (fun v => (v * v)%Qc) (fquad_out ks x)) t.
 Definition c14_scale (v : list Qc) : Qc := (fold_left (fun a x => Qcmax a (Qcabs x)) v (q 0 1) + q 1 1)%Qc.
 Definition c14_cmpl (exact : bool) (a b : list Qc) : bool :=
   if exact then qlist_eqb a b else qlist_close c14_tol (c14_scale a) a b.
@@ -140,10 +141,14 @@ def gen_case(rng, tier):
     else:
         case["baseline"] = dict(fun=rng.choice(sorted(BASE_FUNS)))
     case["model"] = rng.choice(["numpy", "numpy", "tfmodule"])
-    bss = [1, 2, 3, max(1, n - 1), n, n + 1, rng.randint(1, n + 2)]
-    if case["model"] == "tfmodule":
-        bss += [None, None, None]      # batch_size=None needs a TF model (see report: NumPy callable + None crashes)
+    bss = [1, 2, 3, max(1, n - 1), n, n + 1, rng.randint(1, n + 2), None, None]   # None: works for every model kind since fix 0d30c5f
     case["bs"] = rng.choice(bss)
+    # which score the metric must use (C02: metrics explain operator(model, x, targets)): default, a task name, a Tasks
+    # member, or a custom callable; the named operators are TF functions, so a NumPy callable only gets default / custom
+    if case["model"] == "tfmodule":
+        case["operator"] = rng.choice(["none", "none", "classification", "regression", "CLASSIFICATION", "custom_sq"])
+    else:
+        case["operator"] = rng.choice(["none", "none", "none", "custom_sq"])
     case["params"] = fam.gen_fquad(rng, ncls, dim)
     case["xs"] = [fam.dyadic(rng, dim) for _ in range(n)]
     case["ts"] = fam.gen_targets(rng, n, ncls)
@@ -264,8 +269,22 @@ def run_impl(case):
     b = case["baseline"]
     baseline = b["const"] if "const" in b else BASE_FUNS[b["fun"]]
     cls = Deletion if case["mode"] == "deletion" else Insertion
+    op = case.get("operator", "none")
+    if op == "none":
+        operator = None
+    elif op in ("classification", "regression"):
+        operator = op
+    elif op == "CLASSIFICATION":
+        from xplique.commons import Tasks
+        operator = Tasks.CLASSIFICATION
+    else:
+        import tensorflow as tf
+        operator = lambda model, inputs, targets: tf.reduce_sum(tf.cast(model(inputs), tf.float32) ** 2 * targets, axis=-1)
+        if case["model"] == "numpy":
+            inner = model
+            model = lambda x: tf.constant(inner(np.asarray(x)), tf.float32)   # the custom operator calls model(tensor)
     metric = cls(model, xs, ts, batch_size=case["bs"], baseline_mode=baseline, steps=case["steps"],
-                 max_percentage_perturbed=case["pct"])
+                 max_percentage_perturbed=case["pct"], operator=operator)
     es = impl_explanations(case, es)
     d = metric.detailed_evaluate(es)
     keys = [int(k) for k in d.keys()]
@@ -298,7 +317,8 @@ def coq_bmode(case):
 
 def model_args(case):
     bs = core.copt(None if case["bs"] is None else core.cnat(case["bs"]))
-    return (f"(fquad {fam.coq_fquad(case['params'])}) rank_insertion {coq_cfg(case)} {bs} {coq_bmode(case)} "
+    score = "sq_score" if case.get("operator") == "custom_sq" else "fquad"
+    return (f"({score} {fam.coq_fquad(case['params'])}) rank_insertion {coq_cfg(case)} {bs} {coq_bmode(case)} "
             f"{core.cqlist2(case['xs'])} {core.cqlist2(case['ts'])} {core.cqlist2(case['es'])}")
 
 
@@ -306,7 +326,7 @@ def coq_term(case, res):
     if guard(case) is not None:
         return None
     n = len(case["xs"])
-    exv = is_pow2(n)
+    exv = is_pow2(n) and case.get("operator") != "custom_sq"      # squares of the scores are not exact in float32
     exa = exv and is_pow2(max(1, len(res["keys"]) - 1))
     auc = core.copt(None if res["auc"] is None else core.cq(res["auc"]))
     a = model_args(case)
@@ -334,7 +354,7 @@ def reference(case):
         for k, tc in zip(case["params"], t):
             s = Fr(k["b"]) + sum(Fr(w) * v for w, v in zip(k["W"], x)) + sum(Fr(w) * v * v for w, v in zip(k["V"], x))
             s += sum(Fr(c) * x[i] * x[j] for i, j, c in k["X"])
-            out += s * tc
+            out += (s * s if case.get("operator") == "custom_sq" else s) * tc
         return out
     curve = {}
     for k in dict.fromkeys(steps):
